@@ -60,6 +60,7 @@ from . import c01_gen as gen
 from . import c01_rw as rw
 from . import c01_min as cmin
 from . import c01_seq as cseq
+from . import c01_alt as calt
 
 LEVEL = "exploration"
 
@@ -436,6 +437,44 @@ def _explore_seq(text):
     return stats, _digest("exec", text), fails
 
 
+# ----------------------------------------------------------------------------- alternations (xv/c01_alt.py)
+
+_ALT_EVAL = False
+
+
+def _explore_alt(item):
+    """Stage 4: one program of an alternation family; exec mode (+ eval for expressions, thorough)."""
+    fam, text = item
+    stats = {"candidates": 1, "accepted": 0, "evals": 0, "fail_inputs": 0}
+    fails = {}
+    digests = []
+    tree = cpython_parse(text, "exec")
+    if tree is None:
+        return stats, b"", fails
+    modes = ["exec"]
+    if _ALT_EVAL and len(tree.body) == 1 and isinstance(tree.body[0], ast.Expr):
+        modes.append("eval")
+    for m in modes:
+        t_m = text.rstrip("\n") if m == "eval" else text
+        r = evaluate(t_m, m)
+        if r is None:
+            continue
+        stats["accepted"] += 1
+        stats["evals"] += 1
+        digests.append(_digest(m, t_m))
+        if r != "ok":
+            stats["fail_inputs"] += 1
+            key, mt, mm, msig = classify(t_m, m, r)
+            ex = (len(t_m), t_m, m, "alt:" + fam)
+            f = fails.get(key)
+            if f is None:
+                fails[key] = [1, ex, mt, mm, msig]
+            else:
+                f[0] += 1
+                f[1] = min(f[1], ex)
+    return stats, b"".join(digests), fails
+
+
 def _all_kinds():
     out = set()
     for sort in ("stmt", "expr", "pattern", "type_param", "excepthandler", "boolop", "operator", "unaryop", "cmpop"):
@@ -541,6 +580,32 @@ def run(ctx):
                 if tuple(ex) < tuple(f[1]):
                     f[1] = ex
     ctx.log(f"sequence layer: {seq_tot['candidates']} sequences of {len(cseq.LEX_SNIPPETS)} lexically stateful statements, {seq_tot['accepted']} accepted by CPython, {seq_tot['fail_inputs']} failing")
+    # ---- stage 4: alternation patterns of right-recursive rules
+    global _ALT_EVAL
+    _ALT_EVAL = ctx.thorough
+    alts = calt.programs(ctx.thorough)
+    res4 = common.pmap(_explore_alt, alts, ctx.jobs, chunk=16, init=_init_worker, seed=ctx.seed)
+    alt_tot = {"candidates": 0, "accepted": 0, "fail_inputs": 0}
+    alt_fam = {}
+    for (fam, _t), (st, dg, fl) in zip(alts, res4):
+        af = alt_fam.setdefault(fam, [0, 0, 0])
+        af[0] += 1
+        af[1] += st["accepted"]
+        af[2] += st["fail_inputs"]
+        for kk in alt_tot:
+            alt_tot[kk] += st[kk]
+        for kk in tot:
+            tot[kk] += st[kk]
+        blob.append(dg)
+        for key, (n, ex, mt, mm, sig) in fl.items():
+            f = fails.get(key)
+            if f is None:
+                fails[key] = [n, ex, mt, mm, sig]
+            else:
+                f[0] += n
+                if tuple(ex) < tuple(f[1]):
+                    f[1] = ex
+    ctx.log(f"alternation layer: {alt_tot['candidates']} programs in {len(alt_fam)} families (length bound {4 if ctx.thorough else 3}), {alt_tot['accepted']} inputs accepted by CPython, {alt_tot['fail_inputs']} failing")
     data = b"".join(blob)
     distinct = len({data[i : i + 8] for i in range(0, len(data), 8)})
     ctx.log(f"concrete layer: {tot['candidates']} candidate texts, {tot['accepted']} (text, mode) inputs accepted by CPython, {distinct} distinct; {tot['fail_inputs']} failing inputs in {len(fails)} classes")
@@ -593,6 +658,7 @@ def run(ctx):
         ast_node_kinds_in_accepted_programs=len(kinds),
         ast_node_kinds_missing=sorted(_all_kinds() - kinds),
         bounds=bounds,
+        alternation_layer={"length_bound": 4 if ctx.thorough else 3, "programs": alt_tot["candidates"], "accepted_inputs": alt_tot["accepted"], "failing": alt_tot["fail_inputs"], "families": {k: {"programs": v[0], "accepted_inputs": v[1], "failing": v[2]} for k, v in alt_fam.items()}},
         sequence_layer={"snippets": len(cseq.LEX_SNIPPETS), "lengths": [2, 3] if ctx.thorough else [2], "sequences": seq_tot["candidates"], "accepted_by_cpython": seq_tot["accepted"], "failing": seq_tot["fail_inputs"]},
     )
     ctx.assumptions += [
